@@ -107,7 +107,10 @@ def run_for(prop, jobs=6, verbose=True):
     def slot_worker(s):
         out = []
         for m in by_slot[s]:
-            out.append((m, run_mutant(m, s)))
+            try:
+                out.append((m, run_mutant(m, s)))
+            except gen.CheckerError as e:
+                out.append((m, (False, "mutant could not be evaluated: %s" % str(e).split("\n")[0])))
         return out
     with ThreadPoolExecutor(max_workers=jobs) as ex:
         for part in ex.map(slot_worker, slots):
